@@ -451,14 +451,25 @@ pub fn run_c12(case: &C12Case, strategy: Option<Strategy>) -> C12Trace {
 /// the arguments' `Debug` impls do (they are only for error texts); it is then dropped exactly once.
 pub fn run_c12_norender() -> Result<(), String> {
     toks::reset();
-    for setup in 0..3 {
+    for setup in 0..4 {
         let t = Tok::new();
         let id = t.id;
         let m = &|m: &mut unimock::private::Matching<_>| m.func(|_, _| true);
+        let reject = &|m: &mut unimock::private::Matching<_>| m.func(|_, _| false);
         let u = match setup {
             0 => Unimock::new(TMock::t_arg.some_call(m).returns(t)),
             1 => Unimock::new(TMock::t_arg.next_call(m).returns(t)),
-            _ => Unimock::new(TMock::t_arg.some_call(m).returns(t).once()),
+            2 => Unimock::new(TMock::t_arg.some_call(m).returns(t).once()),
+            // an earlier pattern of the same method rejects the call: the later one answers, still without any
+            // need to render the arguments
+            _ => Unimock::new((
+                TMock::t_arg.each_call(reject).answers(&|_, _| Tok::new()),
+                TMock::t_arg
+                    .each_call(matching!(toks::NoRender(200)))
+                    .answers(&|_, _| Tok::new()),
+                TMock::t_arg.some_call(matching!(_)).returns(t),
+            ))
+            .no_verify_in_drop(),
         };
         let got = guarded(|| u.t_arg(toks::NoRender(1)));
         match got {
@@ -485,9 +496,20 @@ pub fn run_c12_norender() -> Result<(), String> {
 pub fn check_c12(case: &C12Case, t: &C12Trace) -> Option<Discrepancy> {
     // "the second request for a single-use value panics instead of producing a value" is also C02's statement
     let single = !case.repeatable();
+    let concurrent = case.threads.len() > 1;
     let d = |at: &str, expected: String, observed: String| {
+        // a request that is refused / served wrongly is also "the k-th match gets what the chain assigns" (C02); with
+        // several threads it is "no call is lost or given another call's position" (C10)
+        let mut props = vec!["C12"];
+        if at == "request" || at == "deliveries" || at == "delivery" {
+            props.push("C02");
+            if concurrent {
+                props.push("C10");
+            }
+        }
+        let _ = single;
         Some(Discrepancy {
-            props: if single && (at == "request" || at == "deliveries") { vec!["C12", "C02"] } else { vec!["C12"] },
+            props,
             at: at.into(),
             expected,
             observed,
@@ -1295,7 +1317,7 @@ pub fn run_child(what: &str, args: &[String], acc: &mut Acc) -> bool {
             if let Err(e) = run_c12_norender() {
                 acc.violations += 1;
                 let d = Discrepancy {
-                    props: vec!["C12", "C02"],
+                    props: vec!["C12", "C02", "C11"],
                     at: "request with an argument whose Debug impl panics".into(),
                     expected: "the value is handed to the (only) caller; Debug is not needed for a successful call".into(),
                     observed: e,
